@@ -259,6 +259,14 @@ func SpawnAfter(name string, f func(), after ...string) {
 	spawnedNames = append(spawnedNames, name)
 }
 
+// SpawnAfterDone registers thread f with the constraint that it takes its first step only after every
+// thread named in `after` has FINISHED (returned); combinations in which such a thread never returns
+// are not explored.  Natively like SpawnAfter.
+func SpawnAfterDone(name string, f func(), after ...string) {
+	spawned = append(spawned, func() { time.Sleep(time.Duration(50*len(spawned)) * time.Millisecond); f() })
+	spawnedNames = append(spawnedNames, name)
+}
+
 // Parallel runs the spawned threads.
 func Parallel() {
 	done := make([]chan struct{}, len(spawned))
